@@ -1,4 +1,6 @@
 """C13 A table's reported format string reproduces the table."""
+import collections
+import types
 import vf
 vf.use_repo()
 from ak.ppobj import PPTable  # noqa: E402
@@ -49,10 +51,20 @@ def alias_fmt(c, fmt):
     return ",".join(out) + sep + rest
 
 
+_REC = collections.namedtuple("Rec", T.FIELDS)
+
+
 def build(c, fmt, limits=None):
     names = field_names(c)
     titles = {n: c['titles'][f] for n, f in zip(names, T.FIELDS)}
-    return PPTable(c['recs'], fields=names, fmt=fmt, limits=limits, header=c['header'], footer=c['footer'],
+    recs, fields = c['recs'], names
+    if c.get('shape') == 'namedtuple':
+        # the record structure comes from the records themselves
+        recs, fields = [_REC(*r) for r in recs], None
+    elif c.get('shape') == 'attr':
+        # ... or from the column descriptions: the values are attributes called like the fields
+        recs, fields = [types.SimpleNamespace(**dict(zip(names, r))) for r in recs], None
+    return PPTable(recs, fields=fields, fmt=fmt, limits=limits, header=c['header'], footer=c['footer'],
                    fields_types=T.mk_field_types(), fields_titles=titles)
 
 
@@ -81,7 +93,17 @@ def gen_case(rng):
     if sibling:
         # cells of other lengths than in the first table
         sibling = [tuple((v * 3 if isinstance(v, str) else v) for v in r) for r in sibling]
-    return dict(recs=recs, fmt=fmt, lim_arg=lim_arg, fmt2=fmt2, remove=remove, d_alias=d_alias, sibling=sibling,
+    shape = rng.choice([None] * 8 + ['namedtuple', 'attr'])
+    if shape == 'namedtuple' and (d_alias or not recs):
+        shape = None
+    if shape:
+        sibling = None
+    if shape == 'attr':
+        # such a table knows only the fields its first format names
+        fmt2 = rng.choice([";1:2", ";*", fmt.split(";")[0], fmt.split(";")[0] + ";2:1"])
+        known = {col.split(":")[0].split("/")[0].rstrip("!") for col in fmt.split(";")[0].split(",")}
+        remove = [f for f in remove if f in known]
+    return dict(shape=shape, recs=recs, fmt=fmt, lim_arg=lim_arg, fmt2=fmt2, remove=remove, d_alias=d_alias, sibling=sibling,
                 header=rng.choice([None, "hdr"]), footer=rng.choice([None, "f", ""]),
                 titles={f: rng.choice(T.TITLES_POOL[f]) for f in T.FIELDS})
 
